@@ -148,7 +148,7 @@ def run(ctx):
     fns = [f for f in reach if f in p.bodies and p.bodies[f].crate == "L"
            and not (f.startswith("<") and ("core::fmt::" in f or "core::hash::" in f))]
     sites = panics.enumerate_sites(p, fns)
-    chk.floor("panic-capable sites reachable from the entry points", len(sites), 25)
+    chk.floor("panic-capable sites reachable from the entry points", len(sites), 15)
     hit_fns = {k[0] for k in I.block_hits}
     for s in sites:
         fl = failing.get((s["fn"], s["bb"]))
